@@ -243,6 +243,10 @@ func genBlast(r *hx.Rand, cfg childCfg, thorough bool) []*conv {
 		{"ws-no-protocol", "GET / HTTP/1.1\r\nHost: x\r\nConnection: Upgrade\r\nUpgrade: websocket\r\nSec-WebSocket-Version: 13\r\nSec-WebSocket-Key: dGhlIHNhbXBsZSBub25jZQ==\r\n\r\n"},
 		{"ws-extensions", "GET / HTTP/1.1\r\nHost: x\r\nConnection: Upgrade\r\nUpgrade: websocket\r\nSec-WebSocket-Protocol: rtsp.onvif.org\r\nSec-WebSocket-Version: 13\r\nSec-WebSocket-Key: dGhlIHNhbXBsZSBub25jZQ==\r\nSec-WebSocket-Extensions: permessage-deflate\r\n\r\n"},
 		{"ws-ok-then-silence", wsHandshake},
+		// regression for fix 989fb91: data right behind the upgrade request
+		{"ws-ok-trailing-byte", wsHandshake + "X"},
+		{"ws-ok-trailing-frame", wsHandshake + "\x82\x85\x01\x02\x03\x04hello"},
+		{"ws-ok-trailing-request", wsHandshake + "OPTIONS rtsp://127.0.0.1/s RTSP/1.0\r\nCSeq: 1\r\n\r\n"},
 	}
 	for _, t := range tun {
 		k := itRawResp
@@ -344,9 +348,9 @@ func runCorpus() *workerOut {
 	out := newOut()
 	cfg := blastTimeouts(childCfg{Handlers: "DASPRUGT", UDP: true})
 	corpus := []*conv{
-		// F-C11-1: a WebSocket upgrade request followed by one more byte in the same segment
+		// regression (fixed by 989fb91): a WebSocket upgrade request followed by one more byte in the same segment
 		{name: "ws-upgrade-with-trailing-byte", end: endWaitClose, items: []item{{kind: itRawResp, data: []byte(wsHandshake + "X")}}},
-		// F-C11-2: RECORD over UDP towards client port 0: the firewall-opening write fails
+		// regression (fixed by ba05e77): RECORD over UDP towards client port 0: the firewall-opening write fails
 		{name: "record-udp-client-port-0", end: endWaitClose, items: []item{
 			reqItem("ANNOUNCE", rq("ANNOUNCE", "rtsp://127.0.0.1/p", "CSeq: 1", "Content-Type: application/sdp", "\x00body:"+sdp2)),
 			reqItem("SETUP", rq("SETUP", "rtsp://127.0.0.1/p/trackID=0", "CSeq: 2", "Transport: RTP/AVP;unicast;client_port=0-1;mode=record")),
@@ -354,7 +358,7 @@ func runCorpus() *workerOut {
 			reqItem("RECORD", rq("RECORD", "rtsp://127.0.0.1/p", "CSeq: 4", "Session: $SESSION$")),
 		}},
 	}
-	// F-C11-3: a connection that sends nothing is never timed out
+	// regression (fixed by d7f6ce8): a connection that sends nothing must be timed out
 	silent := &conv{name: "silent-connection", end: endWaitClose}
 	type res struct{ class, detail string }
 	results := make([]res, len(corpus))
